@@ -147,7 +147,7 @@ def run_case(c):
         if flagged:
             viol.append(_v('C04/flagged-despite-marker:' + c['role'], 'algorithms carry the Terrapin warning although the strict-kex marker for this role is present', flagged=sorted(flagged), combo=combo))
         if V and adv_names != V:
-            viol.append(_v('C04/advisory-wrong:' + c['role'] + (':unknown-shape' if unknown else ''), 'advisory note does not name exactly the exposed algorithms', got=sorted(adv_names), want=sorted(V), combo=combo))
+            viol.append(_v('C04/advisory-wrong:' + c['role'] + (':unknown-shape' if (unknown and (adv_names ^ V) == {unknown}) else ''), 'advisory note does not name exactly the exposed algorithms', got=sorted(adv_names), want=sorted(V), combo=combo))
         if not V and adv:
             viol.append(_v('C04/advisory-spurious:' + c['role'], 'advisory note although nothing is exposed', got=adv[:1], combo=combo))
     else:
@@ -155,7 +155,7 @@ def run_case(c):
         if flagged != V:
             miss, extra = V - flagged, flagged - V
             k = 'missing' if miss else 'extra'
-            which = 'unknown-shape' if (unknown and unknown in miss) else ('cha' if (miss | extra) & set(c['cha']) else 'cbc' if (miss | extra) & set(c['cbc']) else 'etm' if (miss | extra) & set(c['etm']) else 'other')
+            which = 'unknown-shape' if (unknown and miss == {unknown} and not extra) else ('cha' if (miss | extra) & set(c['cha']) else 'cbc' if (miss | extra) & set(c['cbc']) else 'etm' if (miss | extra) & set(c['etm']) else 'other')
             viol.append(_v('C04/flagged-%s:%s:%s' % (k, c['role'], which), 'the set of algorithms carrying the Terrapin warning differs from the published rule', got=sorted(flagged), want=sorted(V), combo=combo, marker=c['marker']))
         if adv:
             viol.append(_v('C04/advisory-without-marker:' + c['role'], 'advisory note although the marker is absent', combo=combo))
